@@ -8,7 +8,7 @@ PROPS["C14"] = dict(
         "Kust.C14.setfield_get", "Kust.C14.setfield_frame", "Kust.C14.setfield_idem",
         "Kust.C14.clear_absent_noop", "Kust.C14.clear_frame", "Kust.Fns.pathGet_nocreate_doc",
     ],
-    components=["fns.lookup", "fns.setfield", "fns.clear", "fns.setelem"],
+    components=["fns.lookup", "fns.setfield", "fns.clear", "fns.setelem", "fieldspec.apply"],
     oracle=False,
     n_corr={"quick": 3000, "thorough": 40000},
     technique="Lean 4 proof of get/set laws on a transliterated model of kyaml fns.go + differential correspondence (Go vs compiled Lean driver)",
